@@ -650,6 +650,7 @@ type Output struct {
 	CachePutPrefix []string      `json:"cachedb_put_prefixes"`
 	Annotations    []*Annotation `json:"annotations_used"`
 	Ambiguous      []Unresolved  `json:"ambiguous_fields"`
+	SliceAppends   []string      `json:"package_slice_appends"`
 	Notes          []string      `json:"notes"`
 	NSites         int           `json:"n_sites"`
 	NSinkCalls     int           `json:"n_store_calls"`
@@ -1000,6 +1001,99 @@ func main() {
 			}
 		}
 	}
+	// 3b. append(<package-level slice>, ...), directly or through a helper that appends to its parameter: a shared
+	// backing array with spare capacity makes every result alias the others (keys built this way change under the feet
+	// of concurrent native executions). A package-level slice initialised by a composite literal has no spare capacity
+	// (append copies) and is not reported.
+	pkgSlice := func(pi *pkgInfo, e ast.Expr) *types.Var {
+		var obj types.Object
+		switch x := e.(type) {
+		case *ast.Ident:
+			obj = pi.Info.Uses[x]
+		case *ast.SelectorExpr:
+			obj = pi.Info.Uses[x.Sel]
+		}
+		v, ok := obj.(*types.Var)
+		if !ok || v.Pkg() == nil || v.Parent() != v.Pkg().Scope() {
+			return nil
+		}
+		if _, isSlice := v.Type().Underlying().(*types.Slice); !isSlice {
+			return nil
+		}
+		// declared with a composite literal?
+		if dp := a.l.infos[v.Pkg().Path()]; dp != nil {
+			for _, f := range dp.Files {
+				for _, d := range f.Decls {
+					gd, ok := d.(*ast.GenDecl)
+					if !ok || gd.Tok != token.VAR {
+						continue
+					}
+					for _, sp := range gd.Specs {
+						vs := sp.(*ast.ValueSpec)
+						for i, nm := range vs.Names {
+							if dp.Info.Defs[nm] == types.Object(v) && i < len(vs.Values) {
+								if _, isLit := vs.Values[i].(*ast.CompositeLit); isLit {
+									return nil
+								}
+							}
+						}
+					}
+				}
+			}
+		}
+		return v
+	}
+	appendsParam := map[types.Object]map[int]bool{}
+	for _, pi := range tinfos {
+		for _, f := range pi.Files {
+			for _, d := range f.Decls {
+				fd, ok := d.(*ast.FuncDecl)
+				if !ok || fd.Body == nil {
+					continue
+				}
+				ast.Inspect(fd.Body, func(n ast.Node) bool {
+					call, ok := n.(*ast.CallExpr)
+					if !ok || len(call.Args) < 2 {
+						return true
+					}
+					if id, ok := call.Fun.(*ast.Ident); !ok || id.Name != "append" {
+						return true
+					}
+					if v := pkgSlice(pi, call.Args[0]); v != nil {
+						out.SliceAppends = append(out.SliceAppends, a.pos(call.Pos())+": "+a.src(call))
+					}
+					if id, ok := call.Args[0].(*ast.Ident); ok {
+						if i := a.paramIndex(pi, fd, pi.Info.Uses[id]); i >= 0 {
+							o := pi.Info.Defs[fd.Name]
+							if appendsParam[o] == nil {
+								appendsParam[o] = map[int]bool{}
+							}
+							appendsParam[o][i] = true
+						}
+					}
+					return true
+				})
+			}
+		}
+	}
+	for _, pi := range tinfos {
+		for _, f := range pi.Files {
+			ast.Inspect(f, func(n ast.Node) bool {
+				call, ok := n.(*ast.CallExpr)
+				if !ok {
+					return true
+				}
+				for i := range appendsParam[a.callee(pi, call)] {
+					if i < len(call.Args) {
+						if v := pkgSlice(pi, call.Args[i]); v != nil {
+							out.SliceAppends = append(out.SliceAppends, a.pos(call.Pos())+": "+a.src(call)+" (the callee appends to this parameter)")
+						}
+					}
+				}
+				return true
+			})
+		}
+	}
 	// 4. data entry prefixes and what CacheDB.put is called with
 	if cp, _ := l.load(l.modpath+"/core/store/common", 0); cp != nil {
 		names := cp.Scope().Names()
@@ -1312,6 +1406,15 @@ func printLean(o *Output) {
 	rows = nil
 	for _, u := range o.Ambiguous {
 		rows = append(rows, "  "+leanStr(u.Pos+" "+u.Func+": "+u.Why))
+	}
+	fmt.Println(strings.Join(rows, ",\n"))
+	fmt.Println("]")
+	fmt.Println()
+	fmt.Println("/-- `append(<package-level slice>, ...)` under native/: results would share one backing array (must be empty) -/")
+	fmt.Println("def packageSliceAppends : List String := [")
+	rows = nil
+	for _, u := range o.SliceAppends {
+		rows = append(rows, "  "+leanStr(u))
 	}
 	fmt.Println(strings.Join(rows, ",\n"))
 	fmt.Println("]")
